@@ -338,7 +338,10 @@ Section Client.
         if r_status r =? 200 then
           let sup := str_eqb (nstr (r_ctype r)) mt_index in
           (s1, rs_set rst sup, [(q, r)], Some sup)
-        else if r_status r =? 404 then (s1, rs_set rst false, [(q, r)], Some false)
+        else if r_status r =? 404 then
+          (* repository not found: an error, the capability stays unknown *)
+          if str_eqb (r_body r) name_unknown then (s1, rst, [(q, r)], None)
+          else (s1, rs_set rst false, [(q, r)], Some false)
         else (s1, rst, [(q, r)], None)
     end.
 
@@ -418,6 +421,8 @@ Section Client.
                | _ => (s1, rs_set rst false, [(q, r)], RErr EUnmodelled)
                end
         else if r_status r =? 404 then
+          if str_eqb (r_body r) name_unknown then (s1, rst, [(q, r)], RErr EOther)   (* NAME_UNKNOWN *)
+          else
           match rst with
           | RSSupported => (s1, rst, [(q, r)], RErr EOther)
           | _ => (s1, rs_set rst false, [(q, r)], RErr EUnmodelled)
@@ -469,7 +474,8 @@ Inductive corruption :=
 | KLenInc | KLenDrop
 | KTypeOther | KTypeGarbage | KTypeDrop
 | KStatus (st : N)
-| KLocDrop.
+| KLocDrop
+| KNameUnknown.            (* 404 with error code NAME_UNKNOWN *)
 
 Definition corrupt (k : corruption) (r : response) : response :=
   let '(mkResp st ct cl dg loc ar sj rf body) := r in
@@ -484,6 +490,7 @@ Definition corrupt (k : corruption) (r : response) : response :=
   | KTypeDrop => mkResp st None cl dg loc ar sj rf body
   | KStatus s => mkResp s ct cl dg loc ar sj rf body
   | KLocDrop => mkResp st ct cl dg None ar sj rf body
+  | KNameUnknown => mkResp 404 ct cl dg loc ar sj rf name_unknown
   end.
 
 (* server = registry + request counter; the k-th exchange is corrupted *)
